@@ -124,7 +124,8 @@ LineViolations(e, c2, K2) ==
                ELSE pc \in DOMAIN K2.chains),
            "", [ev |-> e.ev, obj |-> e.obj,
                 missing |-> {n \in DOMAIN D.sets : n \notin DOMAIN K2.sets \/ ~(D.sets[n].members \subseteq K2.sets[n].members)}])
-    \cup (IF sync /\ xt = "ok" THEN SemanticViolations(e, c2, K2)
+    \* (a state that differs from Derived in an unknown way is judged flow by flow like an exact one: C16 is about verdicts)
+    \cup (IF sync /\ xt \in {"ok", "unexplained"} THEN SemanticViolations(e, c2, K2)
           ELSE IF sync THEN V("Semantics", \E f \in Flows(U) : f.src # f.dst /\ Walk(K2, U, f) # K8sAllows(c2, U, f), "notConverged:" \o xt, [x |-> 0])
           ELSE {})
 
